@@ -1,4 +1,6 @@
 import CSD.Lemmas.RPDAC2
+import CSD.Lemmas.RPDACPrefix4
+import CSD.Lemmas.PFCRange
 
 /-! The RPDAC string iterator yields the members in ID order. -/
 namespace CSD.RPDAC
@@ -32,5 +34,43 @@ theorem extractTable_represents (d : D) (S : List Str) (r : Represents d S) :
   rw [r.len] at this ⊢
   rw [this]
   simp
+
+open CSD.PFC in
+/-- **`extractPrefix` of RPDAC is exact** over any grammar and sequences representing the dictionary: the
+iterator drains to exactly the members that start with the pattern, in order — and to nothing (its `processed`
+wrapped around) when there is none. Dictionaries beyond `2^64 − 1` strings are outside the model. -/
+theorem extractPrefix_represents (d : D) (S : List Str) (r : Represents d S) (hS : ∀ s ∈ S, nulFree s)
+    (hsort : SortedLt S) (hlen : S.length < 2 ^ 64) (p : Str) (hp : nulFree p) (hne : p ≠ []) :
+    extractPrefix d (bytesNat p) = some ((S.filter (isPrefix p)).map bytesNat) := by
+  obtain ⟨lo, hi, hloc, hchar⟩ := locatePrefix_represents d S r hS hsort p hp hne
+  unfold extractPrefix
+  rw [hloc]
+  simp only
+  rcases hchar with ⟨rfl, rfl, hnone⟩ | ⟨h1, h2, h3, hiff⟩
+  · have : S.filter (isPrefix p) = [] := by
+      rw [List.filter_eq_nil_iff]
+      intro a ha
+      obtain ⟨i, hi', rfl⟩ := List.mem_iff_getElem.mp ha
+      have := hnone (i + 1) (by omega) (by omega)
+      simp only [Nat.add_sub_cancel] at this
+      rw [this]; simp
+    rw [this]
+    simp [drain]
+  · have hoff : (lo + 2 ^ 64 - 1) % 2 ^ 64 = lo - 1 := by
+      have : lo + 2 ^ 64 - 1 = (lo - 1) + 2 ^ 64 := by omega
+      rw [this, Nat.add_mod_right, Nat.mod_eq_of_lt (by omega)]
+    rw [hoff]
+    have hd := drain_represents d S r (hi - (lo - 1)) (lo - 1) hi (by omega) (by omega)
+    have e : lo - 1 + (hi - (lo - 1)) = hi := by omega
+    rw [e] at hd
+    rw [hd]
+    have hf := filter_range (isPrefix p) S lo hi h1 h2 h3 (by
+      intro i hi'
+      have := hiff (i + 1) (by omega) (by omega)
+      simp only [Nat.add_sub_cancel] at this
+      exact this)
+    rw [hf]
+    have e2 : hi - (lo - 1) = hi - lo + 1 := by omega
+    rw [e2]
 
 end CSD.RPDAC
